@@ -20,14 +20,15 @@ META = dict(
     title="Harmonic transforms follow the volume convention and all backends agree",
     technique="dense probing of transform operators vs explicit DFT / spherical-harmonic matrices; "
               "3-way back-end comparison under both Hartley conventions",
-    rule=("case i -> family i%8 in {FFT, HARTLEY, BACKEND, SHT, FFT, HARTLEY, BACKEND, SMOOTH}; the Hartley "
-          "convention of a case is (i//8)%2 (canonical / non-canonical). FFT/HARTLEY: RG grid 1-3-D, "
+    rule=("case i -> family i%8 in {FFT, HARTLEY, BACKEND, SHT, FFT, HARTLEY, BACKEND, SMOOTH}; the "
+          "Hartley convention of a case is (i//8)%2 (canonical / non-canonical). FFT/HARTLEY: RG grid 1-3-D, "
           "1..8 pixels/axis (<=32 pixels), default/random distances, position or harmonic as operator "
           "domain, default or explicitly written codomain, embedded as sub-space 0..2 of a product "
           "domain with 0-2 small extra factors; all four modes probed densely with complex basis "
           "vectors + one real and one complex random vector + zero-mode = integral. HARTLEY family "
           "also covers HarmonicTransformOperator on RG. BACKEND: arrays of 1-4 axes, transform over any "
-          "subset of axes, ducc vs SciPy vs JAX for hartley (real input) and ducc vs SciPy for "
+          "subset of axes, ducc vs SciPy vs JAX (quick tier: JAX in half of these cases) for hartley "
+          "(real input) and ducc vs SciPy for "
           "fftn/ifftn (real and complex input), each against the explicit DFT. SHT: LMSpace lmax<=6, "
           "mmax<=lmax to GLSpace (default / custom nlat,nlon) or HPSpace nside 1-2, as SHTOperator or "
           "HarmonicTransformOperator, optionally inside a product domain. SMOOTH: "
@@ -40,10 +41,11 @@ META = dict(
                  "(orthonormal Y_lm, Condon-Shortley phase) convention divided by sqrt(4 pi) per "
                  "transform, real coefficient layout (a_l0; sqrt2 Re a_lm, sqrt2 Im a_lm)",
                  "CPU only; float64/complex128 only"],
-    need=["fft_modes", "hartley_modes", "zero_mode_integrals", "backend_hartley_3way", "backend_fft_2way",
+    need=["fft_modes", "hartley_modes", "zero_mode_integrals", "backend_hartley_3way", "backend_hartley_jax",
+          "backend_fft_2way",
           "sht_matrices", "smoothing_matrices", "canonical_cases", "noncanonical_cases",
           "subspace_transforms"],
-    quick=dict(cases=800, workers=6, budget_s=75),
+    quick=dict(cases=480, workers=8, budget_s=80),
     thorough=dict(cases=16000, workers=16, budget_s=700),
     design_ref="DESIGN.md §5 C09",
     level_text=("generated grids / product domains / conventions, every mode probed densely against an "
@@ -239,7 +241,7 @@ def dft_axes(a, axes, sign=-1, norm=1.0):
     return out * norm
 
 
-def backend_case(ck, rng, conv):
+def backend_case(ck, rng, conv, with_jax=True):
     ift, dd = ck.state["ift"], ck.state["dd"]
     nd = int(rng.integers(1, 5))
     for _ in range(50):
@@ -265,7 +267,9 @@ def backend_case(ck, rng, conv):
     res = {}
     res["ducc"] = dd.hartley(ift.AnyArray(x.copy()), axes=axes).val
     res["scipy"] = dd._scipy_hartley(ift.AnyArray(x.copy()), axes=axes).val
-    res["jax"] = np.asarray(jax_hartley(ck)(x.copy(), axes=axes))
+    if with_jax:
+        res["jax"] = np.asarray(jax_hartley(ck)(x.copy(), axes=axes))
+        ck.hit("backend_hartley_jax")
     w = dict(shape=shape, axes=axes, conv=conv)
     for nm, v in res.items():
         ck.hit("backend_hartley_3way")
@@ -275,6 +279,8 @@ def backend_case(ck, rng, conv):
                          f"of the explicit DFT under the {conv} convention", dev=R.dev(v, want),
                          dtype=str(v.dtype), **w)
     for a, b in (("ducc", "scipy"), ("ducc", "jax"), ("scipy", "jax")):
+        if a not in res or b not in res:
+            continue
         if res[a].shape == res[b].shape and not R.close(res[a], res[b], rtol=1e-12):
             ck.violation(f"backend:hartley:{a}-vs-{b}", f"{a} and {b} Hartley transforms disagree",
                          dev=R.dev(res[a], res[b]), **w)
@@ -426,6 +432,7 @@ def smooth_case(ck, rng):
 
 def case(ck, i):
     rng = ck.rng()
+    # family = i % 8: with 8 (or 16) workers only the BACKEND workers pay for importing JAX
     fam = FAMS[i % len(FAMS)]
     conv = CONV[(i // len(FAMS)) % 2]
     cfg = ck.state["cfg"]
@@ -440,7 +447,9 @@ def case(ck, i):
             if fam in ("FFT", "HARTLEY"):
                 op_case(ck, rng, fam, conv)
             elif fam == "BACKEND":
-                backend_case(ck, rng, conv)
+                # JAX costs an import of ~10-30 s per worker and ~0.1-1 s compilation per new shape:
+                # quick tier uses it in every other pair of BACKEND cases (both conventions)
+                backend_case(ck, rng, conv, with_jax=ck.thorough() or (i // 8) % 4 < 2)
             elif fam == "SHT":
                 sht_case(ck, rng)
             else:
